@@ -175,7 +175,8 @@ func c37(c *hx.Ctx) {
 				return bifrost_http.NewLookupHTTPHandler(v[0].(string), mustURL(v[1].(string)), v[2].(string))
 			},
 			term: func(v []any) string {
-				return B(v[0]) + " (mk_url " + hx.Str(mustURL(v[1].(string)).String()) + ") " + B(v[2])
+				u := mustURL(v[1].(string))
+				return B(v[0]) + " (mk_url " + hx.Str(u.String()) + " " + hx.Str(u.Path) + ") " + B(v[2])
 			},
 		},
 		{
@@ -236,7 +237,7 @@ func c37(c *hx.Ctx) {
 	// controllers resolve on URL.Path, IsEquivalent compares URL.String()
 	{
 		type up struct{ a, b *url.URL }
-		for _, pr := range []up{
+		for pi, pr := range []up{
 			{&url.URL{Host: "x"}, &url.URL{Path: "//x"}},
 			{&url.URL{Path: "/a"}, &url.URL{Path: "/a", RawPath: "/a"}},
 			{&url.URL{Path: "/a b"}, &url.URL{Path: "/a%20b"}},
@@ -257,8 +258,14 @@ func c37(c *hx.Ctx) {
 					"IsEquivalent = true although the URLs differ in Path/Host (%q/%q vs %q/%q): URL.String() renders both as %q",
 					pr.a.Host, pr.a.Path, pr.b.Host, pr.b.Path, pr.a.String())
 			}
-			t := func(u *url.URL) string { return "(mk_lookupHTTPHandler " + hx.Str("GET") + " (mk_url " + hx.Str(u.String()) + ") " + hx.Str("") + ")" }
-			c.Case(hx.App("EqHttp", t(pr.a), t(pr.b), hx.Bool(obs)), desc)
+			t := func(u *url.URL) string {
+				return "(mk_lookupHTTPHandler " + hx.Str("GET") + " (mk_url " + hx.Str(u.String()) + " " + hx.Str(u.Path) + ") " + hx.Str("") + ")"
+			}
+			ctor := "EqHttp"
+			if pi == 0 {
+				ctor = "HttpWitness" // the records of the Coq refutation witness must be these real values
+			}
+			c.Case(hx.App(ctor, t(pr.a), t(pr.b), hx.Bool(obs)), desc)
 		}
 	}
 	for ti, t := range types {
@@ -270,6 +277,12 @@ func c37(c *hx.Ctx) {
 				da, db := t.build(a.v), t.build(b.v)
 				var obs bool
 				pn, _ := hx.Catch(func() { obs = da.(directive.DirectiveWithEquiv).IsEquivalent(db) })
+				// slice-typed parameters must come back unmodified
+				if sp, ok := da.(link_solicit.SolicitProtocol); ok {
+					if string(sp.SolicitProtocolContext()) != a.v[1].(string) || string(db.(link_solicit.SolicitProtocol).SolicitProtocolContext()) != b.v[1].(string) {
+						c.Failf("equiv-mutates-context", map[string]any{"type": t.name}, "IsEquivalent modified the context bytes of a solicitProtocol directive")
+					}
+				}
 				var diff []string
 				var diffRes []string
 				for k := range t.axes {
